@@ -576,6 +576,11 @@ CORPUS_LITERAL = [
     ("both-members", [mk([2], pairs={"js": (1, 1)})], []),
     ("pair-nearest", [mk([2], pairs={"js": (1, None), "css": (None, 1)}), mk([3], pairs={"js": (None, 2), "css": (0, None)}), mk([4])],
      [(5, "js", False), (5, "js_file", False), (5, "css", True), (5, "css_file", False), (3, "css", False)]),
+    # seed C16b (missed at first): diamond, the NON-defining branch listed first, two definers; an intermediate class is read
+    # before the most derived one.  Base tpl/js; Left(Base); Right(Base) tpl/js; Leaf(Left, Right): Leaf's are Right's
+    ("diamond-attr-order", [mk([2], pairs={"template": (11, None), "js": (12, None)}), mk([3]),
+                            mk([3], pairs={"template": (13, None), "js": (None, 2)}), mk([4, 5])],
+     [(4, "template", False), (6, "template", False), (4, "js", True), (6, "js", True), (6, "js_file", False), (5, "template", False)]),
     # duplicates: adjacent repeats keep the order theorem; a distant repeat falls back to first occurrences
     ("dups-adjacent", [mk([2], md(True, [1, 1, 2])), mk([3], md(True, [2, 2, 3]))], [(4, "media", False), (3, "media", False)]),
     ("dups-distant", [mk([2], md(True, [1, 2, 1])), mk([3], md(True, [3, 1]))], [(4, "media", False), (3, "media", True)]),
@@ -787,6 +792,41 @@ def rich_table(rng, sh):
     return t
 
 
+def pattern_table(rng, sh, patterns):
+    """Classes of shape `sh` (all components); patterns = (template, js, css) bitmasks: bit i set <=> class i defines that
+    pair.  Every definer gets its own value (inline code 10+i, now and then the file form), so a value tells who defined it."""
+    t = []
+    for i, b in enumerate(sh):
+        ps = {}
+        for p, mask in zip(PAIRS, patterns):
+            if mask >> i & 1:
+                ps[p] = (None, 1 + i % 2) if rng.random() < 0.2 else (10 + i, None)
+        t.append(mk(b, None, pairs=ps))
+    return t
+
+
+def attr_order_histories(rng, table, perms):
+    """Orders of the ATTRIBUTE accessors: for every given permutation of the classes, read template, js, css (every 4th
+    history the *_file members) of each class in that order, on classes and instances alternately.  The value of every
+    access is compared with the order-independent expectation, and with the same access in the other orders."""
+    hs = []
+    for j, perm in enumerate(perms):
+        names = [p + "_file" for p in PAIRS] if j % 4 == 3 else PAIRS
+        hs.append([(c, a, (j + k) % 2 == 1) for k, c in enumerate(perm) for a in names])
+    return hs
+
+
+def sampled_perms(rng, idx, k):
+    """index order (bases first), reverse (most derived first), every 'one intermediate class first, then the most derived
+    one, then the rest', plus random permutations"""
+    out = [list(idx), list(reversed(idx))]
+    for c in idx[:-1]:
+        out.append([c, idx[-1]] + [x for x in idx if x not in (c, idx[-1])])
+    while len(out) < k:
+        out.append(rng.sample(idx, len(idx)))
+    return out
+
+
 JS_FORMS = [["absent", []], ["none", []], ["str", []], ["bytes", []], ["list", []], ["tuple", []],
             ["str", [1]], ["bytes", [2]], ["list", [1]], ["list", [2, 1]], ["tuple", [1, 2]]]
 CSS_FORMS = [["absent", []], ["none", []], ["str", []], ["bytes", []], ["list", []], ["tuple", []],
@@ -831,6 +871,26 @@ def gen_tables(chk, thorough):
     for sh in shapes(4):
         for _ in range(3 if thorough else 1):
             yield [mk(b, rand_media(rng, NBUILTIN + i, [1, 2, 3], 0.2)) for i, b in enumerate(sh)], "shape4", "std"
+    # 4b. orders of the ATTRIBUTE accessors on 4-class shapes: diamond-like shapes x ALL 16 definer patterns of a pair
+    #     (three patterns per table: template / js / css) x ALL 24 orders of the classes; other shapes random patterns
+    for sh in shapes(4):
+        dia = has_diamond([mk(b) for b in sh])
+        if dia:
+            pats = rng.sample(range(16), 16) + [rng.randrange(16), rng.randrange(16)]
+            groups = [pats[i:i + 3] for i in range(0, 18, 3)]
+        else:
+            groups = [[rng.randrange(16) for _ in PAIRS] for _ in range(2 if thorough else 1)]
+        for g in groups:
+            yield pattern_table(rng, sh, g), "attr-orders4" + ("-diamond" if dia else ""), "attr-perms"
+    #     and on random / stacked-diamond shapes of 5-6 classes with sampled orders
+    for _ in range(600 if thorough else 120):
+        if rng.random() < 0.5:
+            sh = rng.choice(DIAMONDS)
+        else:
+            sh = [s["bases"] for s in rand_table(rng, rng.choice([5, 6]), [1], mixin_p=0.0, attrs=False)]
+        n = len(sh)
+        yield pattern_table(rng, sh, [rng.randrange(1, 2 ** n) & rng.randrange(1, 2 ** n) | 1 << rng.randrange(n) for _ in PAIRS]), \
+            "attr-orders%d" % n, "attr-perms-sampled"
     # 5. every written form of Media.js x Media.css (incl. all the empty ones) on one class, and on a base of a chain
     for jf in JS_FORMS:
         for cf in CSS_FORMS:
@@ -914,7 +974,7 @@ def run(tier, seed):
     terms, cases = [], []
     stats = {"raised_missing_file": 0, "empty_css_forms": 0, "plain_definer_tables": 0, "dup_tables": 0}
 
-    def one_table(table, kind, hs):
+    def one_table(table, kind, hs, coq_every=1):
         seen = {}
         ft = full_table(table)
         if any(not s["comp"] and s["pairs"] for s in table):
@@ -932,7 +992,7 @@ def run(tier, seed):
             nt = outcome[0] == "ok" and nt0
             chk.count((tj, hi, tuple(h)), nt, kind=kind,
                       sample={"table": table, "raw": raws, "history": h, "observed": outcome} if (nt and kind.startswith("random") and len(table) >= 3) else None)
-            t = case_term(table, raws, h, outcome, legit)
+            t = case_term(table, raws, h, outcome, legit) if hi % coq_every == 0 else None
             if t is not None:
                 terms.append(t)
                 cases.append({"table": table, "raw": raws, "history": h, "observed": outcome, "skipped_positions": legit})
@@ -944,6 +1004,13 @@ def run(tier, seed):
             one_table(fix_table(table), "corpus", hs)
         for table, kind, mode in gen_tables(chk, thorough):
             n = len(table)
+            if mode.startswith("attr-perms"):
+                # every history goes through the direct oracles (expected value, independence of the order); every 4th one
+                # is also compared with the model in Coq
+                idx = comp_idx(table)
+                perms = list(itertools.permutations(idx)) if mode == "attr-perms" else sampled_perms(chk.rng, idx, 12)
+                one_table(table, kind, attr_order_histories(chk.rng, table, perms), coq_every=4)
+                continue
             if mode == "all-orders":
                 hs = order_histories(table)
             elif mode == "media-perms":
@@ -973,7 +1040,9 @@ def run(tier, seed):
         rule="every inheritance shape of <= 3 user classes (1-2 bases each, incl. inconsistent MROs) x js lists over 2 files (exhaustive; n=3 %s) "
              "x ALL orders of the .media accesses; on every such shape %s tables with rich contents x ALL access orders (every permutation of the classes x "
              "first touch through .media/.template/.js/.css x class/instance, then everything read again; n=1 all 4! orders, n=2 every sequence of <= 3 accesses); "
-             "every 3-class shape x extend in {True, False, list}^2; ALL 273 4-class shapes; every written form of Media.js x Media.css (11 x 16, incl. '' b'' [] () None {}) on one class "
+             "every 3-class shape x extend in {True, False, list}^2; ALL 273 4-class shapes; attribute-accessor orders: the 120 diamond-like 4-class shapes x all 16 definer "
+             "patterns of a pair x ALL 24 class orders of .template/.js/.css (and *_file) on classes and instances, the other 4-class shapes and random / stacked-diamond "
+             "5-6 class shapes with random patterns (sampled orders incl. 'intermediate class first, then the most derived') - all through the direct oracles, every 4th also in Coq; every written form of Media.js x Media.css (11 x 16, incl. '' b'' [] () None {}) on one class "
              "+ random 2-3 class tables over those forms; seeded random tables of 2-6 classes (mixins with Media, no/empty Media, duplicate entries adjacent and distant, "
              "extend lists, template/js/css and *_file pairs incl. both-members); 7 stacked-diamond shapes of 5-6 classes; Media files lying beside the component module; "
              "plain mixins defining template/js/css; classes with a missing asset file. Each history runs on fresh class objects. "
